@@ -81,6 +81,11 @@ func (g *G) mappable(a *m.Attr) (path, query, header, cookie bool) {
 			primArray = false
 		}
 	}
+	if isPrim && k == m.Bytes {
+		if v := MergedValidation(g.d, a); (v.MinLen != nil || v.MaxLen != nil) && g.avoid("C01-bytes-param-with-length-validation") {
+			isPrim = false
+		}
+	}
 	path = isPrim && k != m.Bytes
 	query = isPrim || primArray
 	header = isPrim || primArray
@@ -316,6 +321,9 @@ func (g *G) mapObjectPayload(meth *m.Method, hasBodyVerb bool) {
 	var bodyFields []string
 	for _, f := range fields {
 		canPath, canQuery, canHeader, canCookie := g.mappable(f.Attr)
+		if GeneratedLocals[lowerCamel(f.Name)] && (canPath || canQuery || canHeader) && hasBodyVerb && g.avoid("C01-param-named-like-generated-local") {
+			canPath, canQuery, canHeader = false, false, false
+		}
 		var opts []string
 		if hasBodyVerb {
 			opts = append(opts, "body", "body", "body")
@@ -395,6 +403,9 @@ func (g *G) mapObjectPayload(meth *m.Method, hasBodyVerb bool) {
 					ok = false
 				}
 				if f.Attr.Type.Kind == m.Object && g.avoid("C01-body-fields-inline-required") {
+					ok = false
+				}
+				if f.Attr.Type.Kind == m.Union && g.avoid("C01-union-in-body-fields") {
 					ok = false
 				}
 			}
@@ -620,6 +631,9 @@ func (g *G) mapObjectResult(meth *m.Method) {
 			}
 		}
 		if canHeader && g.d.Underlying(f.Attr) != m.String && g.avoid("C07-openapi2-response-header-go-type-names") {
+			canHeader = false
+		}
+		if canHeader && GeneratedLocals[lowerCamel(f.Name)] && g.avoid("C01-param-named-like-generated-local") {
 			canHeader = false
 		}
 		opts := []string{"body", "body", "body"}
